@@ -55,6 +55,7 @@ Proof.
     + intros H; inversion H; subst. split; [assumption|]. intros; discriminate.
 Qed.
 
+Arguments unset_if : simpl never.
 Lemma sel_phase_q c s :
   match sel_phase c s with
   | SSent s' t evs => q_retry s' = q_retry s /\
@@ -73,7 +74,10 @@ Proof.
   assert (E0 : q_rr s0 = q_rr s /\ q_stale s0 = q_stale s /\ q_retry s0 = q_retry s).
   { destruct (inv_retry s); [inversion G; auto|]. destruct (valid s); inversion G; auto. }
   destruct E0 as (E1 & E2 & E3).
-  set (s1 := set_proxy None (set_sel_attempts (sat3 (S (sel_attempts s0))) s0)).
+  assert (U : q_rr (unset_if c s0) = q_rr s0 /\ q_stale (unset_if c s0) = q_stale s0 /\ q_retry (unset_if c s0) = q_retry s0)
+    by (unfold unset_if; destruct (_ && _); auto).
+  destruct U as (U1 & U2 & U3). rewrite <- U1 in E1. rewrite <- U2 in E2. rewrite <- U3 in E3.
+  set (s1 := set_proxy None (set_sel_attempts (sat3 (S (sel_attempts s0))) (unset_if c s0))).
   destruct (if rt_eqb (rt s1) RTLeader && c_fw c then proxy_next s1 else PxLeaderOnly) as [|p|]; [| |apply NC'].
   2: { destruct (stale _ || stale _); [apply NC'|]. destruct (pending _).
        - destruct (backoff c BoBusy _) as [s4 e| |e] eqn:B; [|auto|auto].
